@@ -59,6 +59,10 @@ struct Scenario {
     /// the stream takes at most this many bytes per write call (0 = whole writes)
     #[serde(default)]
     max_write: usize,
+    /// unit ids that are registered twice: first a decoy handler (other data, logs nothing), then the real one --
+    /// `ServerHandlerMap::add` replaces, so only the real one may ever be asked
+    #[serde(default)]
+    replaced_units: Vec<u8>,
     steps: Vec<Step>,
 }
 
@@ -108,6 +112,9 @@ async fn run_scenario(sc: &Scenario, sink: &Sink) {
     let mut map = ServerHandlerMap::new();
     let mut wrapped = std::collections::HashMap::new();
     for u in &sc.units {
+        if sc.replaced_units.contains(u) {
+            map.add(UnitId::new(*u), DbHandler::new(*u, sc.seed.wrapping_add(7919), &[], Sink::null()).wrap());
+        }
         let h = DbHandler::new(*u, sc.seed, &holes, sink.clone()).wrap();
         wrapped.insert(*u, h.clone());
         map.add(UnitId::new(*u), h);
